@@ -324,3 +324,36 @@ def routing_family(tier, seed):
     fam += [("deep", p) for p in deep_programs()]
     fam += [("deep-combined", p) for p in combined_deep_programs()]
     return fam
+
+
+# ------------------------------------------------------------------------------------
+# shapes of code-derived sizes (vf/props/sizes.py: constants the front end compares with)
+# ------------------------------------------------------------------------------------
+def derived_size_programs(sizes_):
+    """for every size s: a tuple operand with s members (in / not in / ==), an and-chain and an or-chain with s atoms, an
+    else-if chain with s links, a return with s groups, a condition field whose name has s characters, a string literal
+    of s characters as operand and as label, an integer literal of s digits"""
+    from vf.ref.dsl import And, Or
+    out = []
+    for s in sizes_:
+        members = tuple(Lit(i) for i in range(s))
+        for op in ("in", "not in"):
+            out.append(("size-tuple", prog(If(((Cmp(Id("fld"), op, Tup(members)), R()),), R()))))
+        out.append(("size-tuple", prog(If(((Cmp(Id("t"), "==", Tup(members[:min(s, 12)])), R()),), R()))))
+        atoms = [Cmp(Id("f%d" % i), "==", Lit(i)) for i in range(min(s, 40))]
+        if len(atoms) >= 2:
+            conj, disj = atoms[0], atoms[0]
+            for a in atoms[1:]:
+                conj, disj = And(conj, a), Or(disj, a)
+            out.append(("size-chain", prog(If(((conj, R()),), R()))))
+            out.append(("size-chain", prog(If(((disj, R()),), R()))))
+        links = tuple((Cmp(Id("fld"), "==", Lit(i)), R()) for i in range(min(s, 80)))
+        out.append(("size-elif", prog(If(links, R()))))
+        out.append(("size-groups", prog(Ret(tuple(Group(Lit("g%d" % i), 1 + i % 3) for i in range(min(s, 200)))))))
+        name = ("f" + "x" * 400)[:s]
+        out.append(("size-ident", prog(If(((Cmp(Id(name), ">", Lit(0)), R()),), R()))))
+        text = ("abcdefghij" * 40)[:s]
+        out.append(("size-string", prog(If(((Cmp(Id("fld"), "==", Lit(text)), Ret((Group(Lit(text), 1),))),), R()))))
+        digits = ("1234567890" * 40)[:s]
+        out.append(("size-int", prog(If(((Cmp(Id("fld"), "==", Lit(int(digits))), R()),), R()))))
+    return out
